@@ -40,6 +40,12 @@ func (x *Exec) ghostSeqKey(mt *modTarget) {
 }
 
 func (x *Exec) ghostLogCall(st *State, cls string, args []Val, res Val) {
+	x.ghostLogCallIf(st, "true", cls, args, res)
+}
+
+// ghostLogCallIf logs the call only when cond holds (the slot at the current length is
+// written either way; it is beyond the log's length, hence invisible, when cond is false).
+func (x *Exec) ghostLogCallIf(st *State, cond string, cls string, args []Val, res Val) {
 	h := x.heap
 	pre := "X:calls:" + cls + ":"
 	n := h.get(st, pre+"n", "Int")
@@ -63,8 +69,13 @@ func (x *Exec) ghostLogCall(st *State, cls string, args []Val, res Val) {
 	}
 	seq := h.get(st, "X:seq", "Int")
 	h.set(st, pre+"seq", "(Array Int Int)", Store(h.get(st, pre+"seq", "(Array Int Int)"), n, seq))
-	h.set(st, "X:seq", "Int", app("+", seq, "1"))
-	h.set(st, pre+"n", "Int", app("+", n, "1"))
+	if cond == "true" {
+		h.set(st, "X:seq", "Int", app("+", seq, "1"))
+		h.set(st, pre+"n", "Int", app("+", n, "1"))
+		return
+	}
+	h.set(st, "X:seq", "Int", Ite(cond, app("+", seq, "1"), seq))
+	h.set(st, pre+"n", "Int", Ite(cond, app("+", n, "1"), n))
 }
 
 func (x *Exec) noteSlotType(cls string, ret bool, i int, t types.Type) {
@@ -332,6 +343,7 @@ func (x *Exec) chanClose(f *frame, ch Val, pos string) {
 
 func (x *Exec) chanSend(f *frame, ch Val, v Val, pos string) {
 	f.safety("sendclosed", "send on closed channel", Not(x.chanClosed(f.st, ch)), pos)
+	f.callSiteAsserts("chan.send", 1, []Val{ch, v}, pos)
 	x.ghostLogCall(f.st, "chan.send:"+typeKey(ch.T), []Val{ch, v}, Val{T: types.NewTuple()})
 }
 
@@ -380,6 +392,8 @@ func (f *frame) selectStmt(n *ssa.Select) {
 			out.Fs = append(out.Fs, x.vc.iteVal(okc, v, zero))
 		} else {
 			f.safety("sendclosed", "send on closed channel in select", Implies(Eq(idx, IntLit(int64(i))), Not(x.chanClosed(f.st, ch))), f.pos(n))
+			f.callSiteAssertsIf(Eq(idx, IntLit(int64(i))), "chan.send", 1, []Val{ch, f.val(s.Send)}, f.pos(n))
+			x.ghostLogCallIf(f.st, Eq(idx, IntLit(int64(i))), "chan.send:"+typeKey(ch.T), []Val{ch, f.val(s.Send)}, Val{T: types.NewTuple()})
 		}
 	}
 	f.regs[n] = out
@@ -501,7 +515,11 @@ func (sc *modScanner) instr(in ssa.Instruction, depth int) {
 			sc.ghostClass("chan.recv:" + typeKey(n.X.Type()))
 		}
 	case *ssa.Select:
-		// no state change modelled
+		for _, st := range n.States {
+			if st.Dir == types.SendOnly {
+				sc.ghostClass("chan.send:" + typeKey(st.Chan.Type()))
+			}
+		}
 	case *ssa.Defer:
 		// handled as unsupported in loops elsewhere
 	case *ssa.Call:
